@@ -15,8 +15,8 @@ from props import e2e
 
 ID = 'C02'
 HARNESS = 'solve'
-COQ_IMPORTS = 'From VRP Require Import Base.Tac Model.Core Spec.Valid Model.Homes.'
-MODEL_TARGETS = ['theories/Spec/Valid.vo', 'theories/Model/Homes.vo']
+COQ_IMPORTS = 'From VRP Require Import Base.Tac Model.Core Spec.Valid Spec.ValidX Model.Homes.'
+MODEL_TARGETS = ['theories/Spec/Valid.vo', 'theories/Spec/ValidX.vo', 'theories/Model/Homes.vo']
 MODEL_NEEDS_IMPL = True
 SHARD = 24
 SIZES = {'quick': 900, 'thorough': 6000, 'search': 1500}
@@ -42,7 +42,7 @@ ASSUMPTIONS = ['problem fragment without required breaks and recharges; relation
 def generate(rng, tier, n):
     # plus a few cases of the RING family (a job with 3 pickups and 2 deliveries alternating around a hexagon, 200-400 generations:
     # "pickups before deliveries" after the LKH operator re-sequenced the tour); own forked stream, the other cases are unchanged
-    return e2e.gen_cases(rng, n, per_problem=3, trace=TRACE, allow=('tdm',)) \
+    return e2e.gen_cases(rng, n, per_problem=3, trace=TRACE, allow=e2e.ALLOW_E2E) \
         + e2e.gen_ring_cases(rng.fork('ring-multi'), max(6, n // 100), trace=TRACE) \
         + e2e.gen_cluster_relation_cases(rng.fork('cluster-relation'), max(8, n // 60))     # no bookkeeping trace: the core
     # solution works on the CLUSTERED problem (cluster jobs stand for their members), the trace model is about plan jobs
@@ -60,9 +60,11 @@ def model_term(c, impl):
     if s is None or e2e.unsupported(c, s):
         return '(@nil violation, @nil (Z * Z * list Z), @nil Z, %s)' % tr
     P, S = e2e.g_problem(c, ids), e2e.g_solution(c, s, ids)
-    return ('(let P := %s in let S := %s in (precond_viol P ++ accounted_b P S, '
-            'map (fun t => (to_vehicle t, Z.of_nat (to_shift t), map fa_job (job_acts t))) (sl_tours S), '
-            'map fst (sl_unassigned S), %s))' % (P, S, tr))
+    # ValidX.accounted4 = Valid.accounted_b on the document without its required-break activities / transit stops ++ the
+    # round-four rules (ARequiredBreak, AJobMixedOrder); the tours handed to `compare` are the stripped ones as well
+    return ('(let X := ' + e2e.g_xproblem(c, ids) + ' in let P := %s in let S := %s in (precond_viol P ++ %s, '
+            'map (fun t => (to_vehicle t, Z.of_nat (to_shift t), map fa_job (job_acts t))) (sl_tours (strip_sol X S)), '
+            'map fst (sl_unassigned (strip_sol X S)), %s))' % (P, S, '(accounted4 X P S)', tr))
 
 
 def compare(c, impl, model):
@@ -89,7 +91,10 @@ def compare(c, impl, model):
     core_routes = [(ids.vehicle(r['vehicle']), r['shift'], [ids.job(j) for j in r['jobs'] if not e2e.is_conditional_id(c, j)])
                    for r in core.get('routes', [])]
     # reload markers: as many reload activities in the document tour as marker jobs in the core route
-    doc_reloads = [sum(1 for st in t['stops'] for a in st['activities'] if a.get('type') in ('reload', 'break')) for t in s['tours']]
+    # (REQUIRED breaks are reserved times, not marker jobs: only the breaks of shifts without required breaks count)
+    doc_reloads = [sum(1 for st in t['stops'] for a in st['activities']
+                       if a.get('type') == 'reload' or (a.get('type') == 'break' and not e2e.tour_required_breaks(c, t)))
+                   for t in s['tours']]
     core_reloads = [sum(1 for j in r['jobs'] if e2e.is_conditional_id(c, j)) for r in core.get('routes', [])]
     if doc_reloads != core_reloads:
         return 'reload / break activities per document tour %s differ from marker jobs per core route %s' % (doc_reloads, core_reloads)
@@ -106,7 +111,9 @@ CLASS = {'AJobLost': 'job-lost', 'AJobDuplicated': 'job-duplicated', 'AJobIncomp
          'AJobOrder': 'delivery-before-pickup', 'AJobNoReason': 'unassigned-without-reason', 'AForeignJob': 'foreign-job-id',
          'ATourVehicle': 'tour-unknown-vehicle-shift', 'ATourEmpty': 'empty-tour', 'AShiftTwice': 'shift-drives-two-tours',
          'AExtraActivity': 'undefined-break-reload-activity', 'AReload': 'reload-not-a-distinct-defined-reload-of-the-shift',
-         'ABreak': 'break-not-a-distinct-defined-break-of-the-shift'}
+         'ABreak': 'break-not-a-distinct-defined-break-of-the-shift',
+         'AJobMixedOrder': 'pickup-after-delivery-replacement-or-service-of-the-same-job',
+         'ARequiredBreak': 'break-not-a-distinct-required-break-of-the-shift'}
 
 
 def _violations(c, s, items):
@@ -124,6 +131,11 @@ def _violations(c, s, items):
                 cls = 'empty-tour-max-duration-vehicle'
             what = 'tour #%d (%s shift %s) serves no job; its statistic is %s' % (
                 arg, tour.get('vehicleId'), tour.get('shiftIndex'), json.dumps(tour.get('statistic')))
+        elif name == 'ARequiredBreak' and e2e.rb_reported_twice(s['tours'][arg]):
+            # finding C02-F3: one required break written as a transit stop AND as an activity of the next stop
+            cls = 'required-break-reported-twice-as-transit-stop-and-stop-activity'
+            what = 'ARequiredBreak %s: the same break interval %s is reported by a stop without location and by an activity of another stop' % (
+                arg, e2e.rb_reported_twice(s['tours'][arg]))
         elif name.startswith('AJob') or name == 'AForeignJob':
             what = '%s: job %s' % (name, ids.job_name(arg))
         out.append({'class': cls, 'what': what})
@@ -177,6 +189,7 @@ def classify(c, impl):
         # twin on the raw JSON only, and counted here
         why = e2e.unsupported(c, s)
         labs.append('rendered=%s' % ('yes' if not why else 'no:' + str(why)[:40]))
+    labs += e2e.feature4_labels(c, s)
     for fam in ('ring', 'clustering'):
         if fam in ((c.get('meta') or {}).get('features') or []):
             labs.append('family=' + fam)
